@@ -197,6 +197,11 @@ pub fn witness(cfg: &Config, script: &[Step], obs: &Obs) -> Json {
         "end": cfg.end.name(),
         "empty_timeout_ms": cfg.timeout_ms,
         "bad_frame_strategy": if cfg.kind == LaneKind::Map { cfg.strategy.name() } else { "none (value runtime)" },
+        "runtime": match (cfg.kind, cfg.passthrough) {
+            (LaneKind::Value, _) => "ValueDownlinkRuntime",
+            (LaneKind::Map, false) => "MapDownlinkRuntime (MapInterpretation)",
+            (LaneKind::Map, true) => "MapDownlinkRuntime::with_interpretation(.., NoInterpretation): bodies passed through",
+        },
         "channels": {"socket_out": cfg.cap_sock_out, "socket_in": cfg.cap_sock_in,
                      "consumers": cfg.consumers.iter().map(|c| json!([c.cap_note, c.cap_cmd])).collect::<Vec<_>>()},
         "script": script.iter().map(|s| format!("{s:?}")).collect::<Vec<_>>(),
@@ -420,6 +425,9 @@ pub fn check(cfg: &Config, script: &[Step], obs: &Obs, out: &mut dyn Sink) -> Su
         cx.violate(out, format!("harness-panic/{}", common::sanitize_sig(msg)), format!("a harness task panicked: {msg}"), Json::Null);
     }
 
+    if cfg.passthrough {
+        out.count("passthrough/conversations");
+    }
     sum.frames += obs.lane.reqs.len() as u64;
     out.add("lane-requests", obs.lane.reqs.len() as u64);
     out.add("lane-sync-requests", obs.lane.reqs.iter().filter(|r| r.1 == Req::Sync).count() as u64);
@@ -574,6 +582,9 @@ pub fn check(cfg: &Config, script: &[Step], obs: &Obs, out: &mut dyn Sink) -> Su
                     }
                 };
                 out.count("synced-states-checked");
+                if cfg.passthrough {
+                    out.count("passthrough/synced-states-checked");
+                }
                 let hist = &obs.lane.hist;
                 let in_window = |j: usize| hist[j].0 <= t_s && (j + 1 == hist.len() || hist[j + 1].0 >= t_att);
                 match folded {
@@ -588,7 +599,23 @@ pub fn check(cfg: &Config, script: &[Step], obs: &Obs, out: &mut dyn Sink) -> Su
                             // `stale`: exactly a state the lane held, but only before the attachment;
                             // `incomplete` (map): a strict part of a state the lane held up to the
                             // receipt (entries missing); otherwise `inconsistent`.
-                            let class = if (0..hist.len()).any(|j| hist[j].0 <= t_s && hist[j].1 == f) {
+                            // `events-withheld-after-linked` (map lanes): the replica is wrong because an
+                            // event the lane sent after this consumer had received `linked` (so: after the
+                            // read task knew it) never reached it, although a later one did. Both events
+                            // are ones the lane sent once only, so they cannot be taken for other copies.
+                            // (A consumer promoted by somebody else's `synced`, or registered while an
+                            // answer was half consumed, misses events sent *before* it was told `linked`.)
+                            let withheld = kind == LaneKind::Map && i_linked.map_or(false, |il| {
+                                let t_l = co.frames[il].0;
+                                let once = |e: &Ev| matches!(e, Ev::Upd(..)) && lane_payloads.iter().filter(|x| **x == e).count() == 1;
+                                let got = |e: &Ev| co.frames.iter().any(|f| matches!(&f.1, Note::Event(x) if x == e));
+                                lane_evs.iter().enumerate().any(|(a, ea)| {
+                                    ea.1 > t_l && once(ea.0) && !got(ea.0) && lane_evs[a + 1..].iter().any(|eb| once(eb.0) && got(eb.0))
+                                })
+                            });
+                            let class = if withheld {
+                                "events-withheld-after-linked"
+                            } else if (0..hist.len()).any(|j| hist[j].0 <= t_s && hist[j].1 == f) {
                                 "stale"
                             } else if let St::M(fm) = &f {
                                 let sub = (0..hist.len()).any(|j| {
@@ -681,6 +708,9 @@ pub fn check(cfg: &Config, script: &[Step], obs: &Obs, out: &mut dyn Sink) -> Su
                 );
             } else if len > 0 {
                 out.count("event-runs-checked");
+                if cfg.passthrough {
+                    out.count("passthrough/event-runs-checked");
+                }
             }
         }
 
